@@ -3,6 +3,8 @@ from __future__ import annotations
 
 import numpy as np
 
+import sympy
+
 import core
 import ekf_h as eh
 import fk
@@ -69,6 +71,102 @@ def same_filter_sequences(ctx):
                 break
 
 
+def predict_against_oracle(ctx, d, ekf, process, pt, tag):
+    """one prediction of `ekf` (built from `d`) at `pt` against G P G^T + V M V^T and the propagated state, by name"""
+    Ls, Lc, Lk = eh.names_of(d)
+    um = {s.name: e for s, e in d.state_model.items()}
+    P = eh.spd(ctx.rng, len(Ls))
+    sub = eh.subs_map(d, pt)
+    G = eh.oracle_jac(um, Ls, Ls, sub)
+    V = eh.oracle_jac(um, Ls, Lc, sub)
+    M = [[process[a] if a == b else 0 for b in Lc] for a in Lc]
+    want_P = eh.mmul(eh.mmul(G, P), eh.mT(G))
+    if Lc:
+        want_P = eh.madd(want_P, eh.mmul(eh.mmul(V, M), eh.mT(V)))
+    want_x = eh.oracle_vals(um, Ls, sub)
+    case = {"def": d.describe(), "noise": {k: str(v) for k, v in process.items()}, "point": eh.point_json(pt), "P": eh.mat_json(P), "stream": tag}
+    ctx.case(case, True); ctx.count(f"stream={tag}")
+    try:
+        with fk.quiet():
+            r = ekf.process_model(float(pt["dt"]), eh.state_obj(ekf, pt), eh.cov_obj(ekf, P), eh.control_obj(ekf, pt))
+    except Exception as e:
+        ctx.fail(f"process-model-raises:{fk.exc_kind(e)}", f"process_model raises {e!r}"[:300], case); return
+    gx = fk.by_name(r.state)
+    if not all(core.close(gx[n], w, scale=max(map(abs, want_x))) for n, w in zip(Ls, want_x)):
+        ctx.fail(f"predict-state:{tag}", f"predicted state {gx} differs from the model-propagated state {dict(zip(Ls, map(float, want_x)))}", case)
+    if not eh.mat_close(r.covariance.data, want_P):
+        ctx.fail(f"predict-cov:{tag}", f"predicted covariance {r.covariance.data.tolist()} differs from G P G^T + V M V^T = "
+                 f"{[[float(x) for x in row] for row in want_P]}", case)
+
+
+def integrators_and_integer_covariances(ctx):
+    """(a) pure integrators of the controls (the symbolic process Jacobian is exactly the identity): the covariance handed in is
+    left as it was, the result is a fresh value, repeating the call repeats the result; (b) a covariance handed over as an INTEGER
+    array (from_data only looks at the shape) is the same covariance as with floats"""
+    from fractions import Fraction as Fr
+    for i in range(3 if ctx.quick else 20):
+        names = gen.fresh_names(ctx.rng, 4)
+        a, b, u, w = (sympy.Symbol(x) for x in names)
+        dt = sympy.Symbol("dt")
+        sm = {a: a + dt * u, b: b + dt * w + dt * u / 2} if i % 2 == 0 else {a: a + dt * u * w, b: b + u}
+        d = gen.Definition(dt, [a, b], [u, w], [], sm, {})
+        process, sensor = eh.make_noises(ctx.rng, d)
+        pt = gen.gen_point(ctx.rng, d)
+        try:
+            ekf = eh.compile_ekf(d, process, sensor, {}, ctx.rng, cse=(i % 2 == 0))
+        except Exception as e:
+            ctx.fail(f"compile-ekf-raises:{fk.exc_kind(e)}", f"compile_ekf refuses a valid definition: {e!r}"[:300], {"def": d.describe()}); continue
+        Ls, Lc, Lk = eh.names_of(d)
+        um = {s.name: e for s, e in d.state_model.items()}
+        sub = eh.subs_map(d, pt)
+        G = eh.oracle_jac(um, Ls, Ls, sub); V = eh.oracle_jac(um, Ls, Lc, sub)
+        M = [[process[x] if x == y else 0 for y in Lc] for x in Lc]
+        for label, Pi in (("float", None), ("int64", np.array([[2, 1], [1, 3]], dtype=np.int64)), ("int-diagonal", np.diag([2, 3]))):
+            P = [[Fr(int(v)) for v in row] for row in Pi] if Pi is not None else eh.spd(ctx.rng, 2)
+            want_P = eh.madd(eh.mmul(eh.mmul(G, P), eh.mT(G)), eh.mmul(eh.mmul(V, M), eh.mT(V)))
+            case = {"def": d.describe(), "noise": {k: str(v) for k, v in process.items()}, "point": eh.point_json(pt), "P": eh.mat_json(P),
+                    "covariance_given_as": label, "stream": "integrators"}
+            ctx.case(case, True); ctx.count(f"stream=integrators:{label}")
+            cv = ekf.Covariance.from_data(Pi.copy()) if Pi is not None else eh.cov_obj(ekf, P)
+            st, ct = eh.state_obj(ekf, pt), eh.control_obj(ekf, pt)
+            snap = np.array(cv.data, dtype=float).copy()
+            try:
+                with fk.quiet():
+                    r1 = ekf.process_model(float(pt["dt"]), st, cv, ct)
+                    first = np.array(r1.covariance.data, dtype=float).copy()
+                    r2 = ekf.process_model(float(pt["dt"]), st, cv, ct)
+            except Exception as e:
+                ctx.fail(f"process-model-raises:{fk.exc_kind(e)}", f"process_model raises {e!r}"[:300], case); continue
+            if not np.array_equal(np.array(cv.data, dtype=float), snap):
+                ctx.fail("process-model-mutates-input", "process_model changed the covariance it was given", case)
+            elif not np.array_equal(np.array(r2.covariance.data, dtype=float), first) or not np.array_equal(np.array(r1.covariance.data, dtype=float), first):
+                ctx.fail("process-model-not-repeatable", "repeating process_model on the same inputs gives a different covariance (or changes the one "
+                         "returned before)", case)
+            elif not eh.mat_close(first, want_P):
+                ctx.fail(f"predict-cov:covariance-as-{label}", f"predicted covariance {first.tolist()} differs from G P G^T + V M V^T = "
+                         f"{[[float(x) for x in row] for row in want_P]}", case)
+
+
+def role_swapped_twins(ctx):
+    """two filters built one after the other in this process from the SAME expressions over the SAME symbols, in which a control and
+    a calibration value have exchanged roles (so every positional argument list differs although the symbol sets are equal)"""
+    for i in range(3 if ctx.quick else 25):
+        d = gen.gen_definition(ctx.rng, n_state=ctx.rng.choice([2, 3]), n_control=1, n_calib=1, n_sensors=0, depth=2)
+        # make sure both the control and the calibration symbol occur inside state-dependent products (Jacobian entries mention them)
+        u, k = d.control[0], d.calibration[0]
+        d.state_model[d.state[0]] = d.state_model[d.state[0]] + u * k * d.state[-1] * d.dt + u * d.state[0] * d.state[-1]
+        d2 = gen.Definition(d.dt, list(d.state), [k], [u], dict(d.state_model), {})
+        for dd in (d, d2):
+            process, sensor = eh.make_noises(ctx.rng, dd)
+            pt = gen.gen_point(ctx.rng, dd)
+            try:
+                ekf = eh.compile_ekf(dd, process, sensor, pt["cal"], ctx.rng, cse=(i % 2 == 0))
+            except Exception as e:
+                ctx.fail(f"compile-ekf-raises:{fk.exc_kind(e)}", f"compile_ekf refuses a valid definition: {e!r}"[:300], {"def": dd.describe()})
+                break
+            predict_against_oracle(ctx, dd, ekf, process, pt, "role-swapped-twin")
+
+
 def run(ctx):
     audit = core.lean_audit("C04")
     drv = core.Driver()
@@ -133,6 +231,8 @@ def run(ctx):
                 idx = drv.add({"op": "predict", "ekf": eh.ekf_json(d, process, sensor), "point": eh.point_json(pt), "P": eh.mat_json(P)})
                 pending.append((idx, gx, r1.covariance.data.copy(), case))
     same_filter_sequences(ctx)
+    role_swapped_twins(ctx)
+    integrators_and_integer_covariances(ctx)
     ans = drv.run()
     for idx, gx, gP, info in pending:
         a = ans[idx]
